@@ -1,11 +1,55 @@
 /-
   C13 — clone writes only source chunks at their offsets, once, skipping in-place ones.
-  Only property theorems and their non-vacuity examples live here.  (Tiling level, as C03.)
+  Only property theorems and their non-vacuity examples live here.  (Byte level for the whole
+  clone: `clone_write_log_exact`; tiling level, as C03: `write_log_exact`, `write_log_exact_plain`.)
 -/
 import Bita.Proofs.InPlace
+import Bita.Proofs.CloneNoJunk
+import Bita.Proofs.StepOrder
 
 namespace Bita.Props.C13
 open Bita Bita.Spec
+
+/-- **C13 at the level of bytes, for the whole clone** (`Clone.run`: plain or in place, any seeds,
+any reader behaviour, whatever the result).  The archive opens to `a`, which describes `src` as
+the chunks `cks`.  Then every write the run issued to the output is exactly one source chunk's
+bytes at one of that chunk's offsets in the source (`chunkPlacements cks 0`); no offset is
+written twice; nothing is written beyond the source length; and in place (`--seed-output`) a
+location where the scan of the prior output already found the right chunk is not written at
+all.  The only escape is a collision of the truncated strong hash with a genuine source chunk;
+colliding junk chunks in the prior output are irrelevant (`Proofs.reorderOps_keep`). -/
+theorem clone_write_log_exact (H : Bytes → Bytes) (hH : ∀ x, (H x).length = 64)
+    (decomp : Nat → Bytes → Nat → Option Bytes) (features : List Nat)
+    (readAt : Nat → Nat → Option Bytes) (readChunks : List (Nat × Nat) → List (Option Bytes))
+    (opts : CloneOpts) (prior : Bytes) (seeds : List Bytes)
+    (a : Archive) (src : Bytes) (cks : List Bytes)
+    (hinit : tryInit H features readAt = .ok a) (hd : Describes H a src cks) :
+    let W := writesOf (Clone.run H decomp features readAt readChunks opts prior seeds).log
+    ((∀ w ∈ W, w ∈ chunkPlacements cks 0) ∧
+     (W.map (·.1)).Nodup ∧
+     (∀ w ∈ W, w.1 + w.2.length ≤ src.length) ∧
+     (opts.seedOutput = true → ∀ w ∈ W, ∀ c ∈ chunkAll a.config prior,
+        c.1 = w.1 → slice prior c.1 c.2 ≠ w.2)) ∨
+    Collision H a.hashLength cks :=
+  Proofs.clone_write_log_exact_nojunk H hH decomp features readAt readChunks opts prior seeds a src cks
+    hinit hd
+
+/-! Non-vacuity of `clone_write_log_exact`: an in-place clone over a prior output that holds the
+first two source chunks swapped and junk where the third belongs.  Both are moved (each written
+once, at its source offset), the third is fetched and written at its offset; the result is the
+source. -/
+def toyH (x : Bytes) : Bytes := (x ++ List.replicate 64 0).take 64
+
+example :
+    let src : Bytes := [1, 2, 3, 4, 5, 6, 7, 8]
+    let archive := createArchive toyH "lib" id ⟨.fixed 3, 8, none, []⟩ src
+    let prior : Bytes := [4, 5, 6, 1, 2, 3, 9, 9]
+    let r := Clone.run toyH (fun _ b _ => some b) [] (honestReadAt archive) (honestReadChunks archive)
+      { seedOutput := true } prior []
+    writesOf r.log = [(0, [1, 2, 3]), (3, [4, 5, 6]), (6, [7, 8])] ∧
+    r.result = .ok ∧ r.output = src ∧
+    writesOf r.log = chunkPlacements [[1, 2, 3], [4, 5, 6], [7, 8]] 0 := by
+  decide +kernel
 
 variable {κ : Type} [DecidableEq κ]
 
@@ -42,5 +86,13 @@ example :
       (fun r => writesOf (feedAll content3 r.1 [5]).log)) =
       some [(7, content3 1), (1, content3 2), (4, content3 5)] := by
   decide +kernel
+
+/-- The step order of `clone_archive` that `Clone.run` transcribes (scan the output and reorder in
+place *before* any seed is used, fetch last, flush before resize), read from the source on every
+run: a reordering of the steps in the code breaks this theorem. -/
+theorem clone_steps_as_modelled :
+    Gen.cloneStepOrder = ["try_init", "banner", "pin", "open_output", "device_check", "scan_output", "reorder",
+                          "seed_stdin", "seed_files", "fetch", "flush", "resize", "verify_output"] :=
+  Proofs.clone_step_order_fact
 
 end Bita.Props.C13
